@@ -28,6 +28,11 @@ def gen_cases(tier, seed):
     for i in range(260 if tier == 'quick' else 6000):
         cases.append({'kind': 'threads', 'm': rng.choice([1, 2, 3, 4]), 'n': rng.choice([1, 2, 2, 3, 4]), 'bound': rng.choice([0, 1, 2, 3]),
                       'rounds': rng.choice([2, 3, 5]), 'items': rng.choice([0, 1, 5, 30]), 'p': rng.choice([0.05, 0.2, 0.4]), 'seed': rng.randrange(1 << 30)})
+    # a stop event is attached (never set): get/put poll every second; suppliers stall for about that interval
+    for i in range(14 if tier == 'quick' else 200):
+        cases.append({'kind': 'threads', 'm': rng.choice([1, 2]), 'n': rng.choice([1, 2, 3]), 'bound': rng.choice([0, 1]), 'rounds': 2, 'items': rng.choice([2, 6]),
+                      'p': 0.2, 'with_stop_event': True, 'supplier_stall': round(rng.choice([rng.uniform(0.95, 1.08), rng.uniform(0.95, 1.08), rng.uniform(0.09, 0.12)]), 4),
+                      'seed': rng.randrange(1 << 30)})
     for i in range(6 if tier == 'quick' else 80):
         cases.append({'kind': 'stop', 'moment': ['before', 'blocked-get', 'blocked-put'][i % 3], 'n': rng.choice([1, 3]), 'seed': rng.randrange(1 << 30)})
     for i in range(4 if tier == 'quick' else 60):
@@ -40,7 +45,10 @@ def run_threads(case):
 
     rng = random.Random(case['seed'])
     m, n, rounds = case['m'], case['n'], case['rounds']
-    q = MQ.IterableQueue(_queue.Queue(case['bound']), num_suppliers=m)
+    if case.get('with_stop_event'):
+        q = MQ.IterableQueue(_queue.Queue(case['bound']), num_suppliers=m, to_stop=threading.Event())
+    else:
+        q = MQ.IterableQueue(_queue.Queue(case['bound']), num_suppliers=m)
     viol = []
     obs = {'runs': 1, 'rounds': 0, 'items_delivered': 0, 'renews': 0}
     counts = [[rng.randrange(0, case['items'] + 1) for _ in range(m)] for _ in range(rounds)]
@@ -62,7 +70,11 @@ def run_threads(case):
             for r in range(rounds):
                 bar.wait(BOUND)
                 for i in range(counts[r][s]):
+                    if case.get('supplier_stall') and s == 0 and i == counts[r][s] // 2:
+                        time.sleep(case['supplier_stall'])
                     q.put(item(r, s, i))
+                if case.get('supplier_stall') and s == 0 and counts[r][s] == 0:
+                    time.sleep(case['supplier_stall'])
                 q.put_end()
                 bar.wait(BOUND)
                 bar.wait(BOUND)  # renew happens between these two
@@ -92,6 +104,9 @@ def run_threads(case):
     fz = schedfuzz.SchedFuzz(seed=case['seed'], p=case['p'], delays=(0, 0, 0.0001, 0.0005, 0.002))
     fz.add(MQ.IterableQueue.__next__, MQ.IterableQueue.put_end, MQ.IterableQueue.renew)
     fz.add_site(MQ.IterableQueue.__next__, 'self._used_lids.put(z)', prob=0.5, delay=0.002, where='after', name='between-used-put-and-full-test')
+    if case.get('with_stop_event'):
+        fz.add(MQ.ResponsiveQueue._get_put)
+        fz.add_handler_sites(MQ.ResponsiveQueue._get_put, MQ.IterableQueue.__next__, prob=0.6, delay=0.015)
     ths = [threading.Thread(target=supplier, args=(s,), name=f'supplier-{s}', daemon=True) for s in range(m)]
     ths += [threading.Thread(target=consumer, args=(c,), name=f'consumer-{c}', daemon=True) for c in range(n)]
     with fz:
